@@ -40,7 +40,7 @@ ASSUMPTIONS = ['a trailing slash may either count as a present empty segment or 
                'predicate k_rest_empty_applies: ValueError or exactly pieces[:minsegs-1] + [remainder], nothing else',
                'items containing a single quote are double-quoted too; white space, backslashes outside quotes and '
                'escapes other than \\\\ and \\" are DONT-CARE for split_by_commas']
-INTERPRETER_FLAGS = [[], ['-O'], [], ['-bb']]
+INTERPRETER_FLAGS = [[], ['-O'], ['-X', 'dev'], ['-bb']]
 CONCURRENT = lambda case: case.get('kind') != 'twins' and case.get('cls') != 'long'         # pure functions of their arguments; see vlib/concurrent.py
 SHARDS = {'quick': 4, 'thorough': 16}
 
@@ -492,6 +492,11 @@ DC_LITERALS = ['a b', ' a', 'a ', 'a , b', '"a" , "b"', ' "a"', '"a" ', 'a\\b', 
 
 
 HAMMER_BUDGET = 12.0        # pyparsing is slow: more library time so that the threads meet inside it often enough
+
+
+def REJECTED_FUNCS(ctx):
+    from oslo_utils import strutils
+    return [strutils.split_path, strutils.split_by_commas]
 
 
 def HAMMER(ctx):
